@@ -72,7 +72,7 @@ def case(draw, tier):
     reload = draw(st.integers(0, 3)) == 0
     unmatched = (not has_default) and draw(st.integers(0, 9)) == 0
     times = draw(gen.time_set(start, end - 1, 1, 10 if big else 7))
-    keyvals = list(range(nb)) + ([7] if has_default or unmatched else [])
+    keyvals = list(range(nb)) + ([7, 8, 8] if has_default else [7] if unmatched else [])   # 7 -> 8: two keys, one (default) branch
     key_script = []
     for t in times:
         key_script.append([t, [{"k": "set", "v": draw(st.sampled_from(keyvals if (has_default or (unmatched and t == times[-1])) else list(range(nb))))}]])
